@@ -101,7 +101,7 @@ static void c07_case(const vector<Tpl> &T, int a, int b, int n, int code, int sz
             // Distribution, FixedRelative), this one violated and unreported while the OTHER one is named in the lists
             vector<string> kc = inClass;
             if (overlap && used.size() == 2) {
-                auto eqAxes = [&](const string &nm) { int m = 0; if (nm.find("FixedRelative") == 0) m = 3; else if (nm.find("==") != string::npos || nm.find("Alignment") == 0 || nm.find("Distribution") == 0) m = nm.find(" X ") != string::npos ? 1 : 2; return m; };
+                auto eqAxes = [&](const string &nm) { int m = 0; if (nm.find("FixedRelative") == 0) m = 3; else if (nm.find("==") != string::npos || nm.find("Alignment") == 0 || nm.find("Distribution") == 0 || nm.find("between guide lines") != string::npos) m = nm.find(" X ") != string::npos ? 1 : 2; return m; };   // (a separation between guide lines contains the guide lines' alignments, which are equalities)
                 int mine_ = eqAxes(T[used[k]].name), other_ = eqAxes(T[used[1 - k]].name); bool otherReported = false;
                 for (auto *lst : {&ux, &uy}) for (auto *u : *lst) for (auto m : mine[1 - k]) if (u->cc == m) otherReported = true;
                 if ((mine_ & other_) && otherReported) kc.push_back("contradicting_equalities_with_nonoverlap");
